@@ -64,14 +64,16 @@ def throughFirstEffectiveStop (q : Req) (draw : Rule → Nat) : List Rule → Li
   | r :: rs =>
     if effective q draw r && isStop r then [r] else r :: throughFirstEffectiveStop q draw rs
 
+/-- `f k r` for the `k`-th element `r` (counting from `n`). -/
+def mapIdxFrom {β : Type} (f : Nat → Rule → β) : Nat → List Rule → List β
+  | _, [] => []
+  | n, r :: rs => f n r :: mapIdxFrom f (n + 1) rs
+
 /-- The step list in closed form: one step per rule of that prefix; step `k` shows the action of the
 first `k+1` rules (`Spec.action` over their contributing rules). -/
 def traceSteps (q : Req) (draw : Rule → Nat) (sorted : List Rule) : List TraceAction :=
-  let shown := throughFirstEffectiveStop q draw sorted
-  (List.range shown.length).filterMap fun k =>
-    match shown[k]? with
-    | some r => some ⟨Spec.action q (contributing q draw (sorted.take (k + 1))), r⟩
-    | none => none
+  mapIdxFrom (fun k r => ⟨Spec.action q (contributing q draw (sorted.take (k + 1))), r⟩) 0
+    (throughFirstEffectiveStop q draw sorted)
 
 end Spec
 
